@@ -120,7 +120,9 @@ class FakeSocket:
             raise OSError(errno.ENOTCONN, "Transport endpoint is not connected")
         if self.reset:
             raise ConnectionResetError(errno.ECONNRESET, "Connection reset by peer")
-        if self.peer.closed:
+        if self.eof_sent and data:
+            raise BrokenPipeError(errno.EPIPE, "Broken pipe")
+        if (self.peer.closed or self.peer.eof_sent):
             # Linux: the first send() after the peer closed still succeeds (the bytes provoke a RST), later ones fail
             if data and not self.sent_after_peer_close:
                 self.sent_after_peer_close = True
@@ -159,11 +161,26 @@ class FakeSocket:
             return out
         if self.reset:
             raise ConnectionResetError(errno.ECONNRESET, "Connection reset by peer")
-        if self.peer is not None and self.peer.closed:
+        if self.peer is not None and (self.peer.closed or self.peer.eof_sent):
             return b""
         if self.state == "refused":
             raise ConnectionRefusedError(errno.ECONNREFUSED, "Connection refused")
         raise BlockingIOError(errno.EAGAIN, "Resource temporarily unavailable")
+
+    eof_sent = False
+
+    def shutdown(self, how):
+        """Linux: ENOTCONN on a socket that is not (or no longer) connected - never connected, refused, reset by the peer;
+        fine on an established one, also after the peer's FIN (CLOSE_WAIT); the peer then reads end-of-file"""
+        self.net.s.yield_point("sock.shutdown")
+        if self.closed:
+            raise OSError(errno.EBADF, "Bad file descriptor")
+        if self.listening:
+            return
+        if self.state != "conn" or self.reset:
+            raise OSError(errno.ENOTCONN, "Transport endpoint is not connected")
+        if how != _socket.SHUT_RD:
+            self.eof_sent = True
 
     def close(self):
         self.closed = True
@@ -183,7 +200,7 @@ class FakeSocket:
             return False
         if self.listening:
             return bool(self.backlog)
-        return bool(self.rx) or self.reset or (self.peer is not None and self.peer.closed) or self.state == "refused"
+        return bool(self.rx) or self.reset or (self.peer is not None and (self.peer.closed or self.peer.eof_sent)) or self.state == "refused"
 
     blocked_until = 0.0
     sent_after_peer_close = False
@@ -242,6 +259,12 @@ class VSocketMod:
 
     def __init__(self, net):
         self.net = net
+
+    def __getattr__(self, name):
+        # constants (SHUT_RDWR, SO_KEEPALIVE, IPPROTO_TCP ...) are the real module's; functions are not forwarded
+        if name.isupper():
+            return getattr(_socket, name)
+        raise AttributeError(name)
 
     def socket(self, *a):
         # fault injection: the next socket() calls of the code under test fail (EMFILE, ENOBUFS ...)
